@@ -812,8 +812,8 @@ def check_ident(case, rec):
     # nugget-aware variants: differ from the plain ones only at r == 0
     ar = np.abs(r)
     zero = ar == 0.0
-    # zero-lag window of the nugget-aware variants: 1e-8 correlation lengths (non-dimensional lag since repo fix 63aabb8)
-    window = (ar > 0) & (ar <= WIN * max(1.0, float(m.len_rescaled)))
+    # zero-lag window of the nugget-aware variants: 1e-8 * min(1, correlation length) since the repo fixes for small length units
+    window = (ar > 0) & (ar <= WIN)
     if window.any():
         rec.exclude("isclose_window_nugget_variant")  # documented behaviour of cov_nugget
     reg = ~window
@@ -1067,7 +1067,7 @@ def check_user(case, rec):
         chk("variogram", lib(mdl.variogram, r, _tags=t), var * (1 - rho) + nugget, 1e-12 * sill)
         chk("cor", lib(mdl.cor, np.abs(h), _tags=t), rho, tol_rho + 1e-13 * float(np.max(np.abs(h))))
         zero = r == 0
-        win = (np.abs(r) > 0) & (np.abs(r) <= WIN * max(1.0, float(mdl.len_rescaled)))
+        win = (np.abs(r) > 0) & (np.abs(r) <= WIN)
         reg = ~win
         chk("cov_nugget", np.asarray(lib(mdl.cov_nugget, r, _tags=t))[reg], np.where(zero, sill, var * rho)[reg], 1e-12 * sill)
         chk("vario_nugget", np.asarray(lib(mdl.vario_nugget, r, _tags=t))[reg], np.where(zero, 0.0, var * (1 - rho) + nugget)[reg], 1e-12 * sill)
